@@ -40,19 +40,21 @@ def main():
         cp(notes, f'{out}/notes.md')
     meta = {'name': name, 'property': prop, 'patch': 'patch.diff', 'demonstration': os.path.basename(demo), 'ran': []}
     tests = re.findall(r'^func (Test\w+)\(', open(demo).read(), flags=re.M)
+    race = ['-race'] if (notes and os.path.exists(notes) and 'go test -race' in open(notes).read()) else []
+    meta['demo_needs_race'] = bool(race)
     runre = '^(' + '|'.join(tests) + ')$'
     wt = f'/tmp/seedwt-{name}'
     sh(['git', '-C', '/repo', 'worktree', 'remove', '--force', wt])
     rc, o = sh(['git', '-C', '/repo', 'worktree', 'add', '--detach', wt, 'HEAD'])
     try:
         shutil.copy(demo, wt)
-        rc0, o0 = sh(['go', 'test', '-vet=off', '-count=1', '-run', runre, '.'], cwd=wt)
+        rc0, o0 = sh(['go', 'test'] + race + ['-vet=off', '-count=1', '-run', runre, '.'], cwd=wt)
         meta['demo_without_change'] = 'pass' if rc0 == 0 else 'FAIL'
         rc, o = sh(['git', 'apply', f'{out}/patch.diff'], cwd=wt)
         meta['applies'] = rc == 0
         rcb, ob = sh(['go', 'build', '.'], cwd=wt)
         meta['builds'] = rcb == 0
-        rc1, o1 = sh(['go', 'test', '-vet=off', '-count=1', '-run', runre, '.'], cwd=wt)
+        rc1, o1 = sh(['go', 'test'] + race + ['-vet=off', '-count=1', '-run', runre, '.'], cwd=wt)
         meta['demo_with_change'] = 'pass' if rc1 == 0 else 'fail'
         os.remove(os.path.join(wt, os.path.basename(demo)))
         # baseline tests with the change
